@@ -110,4 +110,12 @@ theorem splitCmd_noSpace (a rest : Bytes) (h : ∀ b ∈ a, b ≠ 32) : splitCmd
     have ht : ∀ b ∈ t, b ≠ 32 := fun b hb => h b (by simp [hb])
     simp [splitCmd, hc, ih ht]
 
+theorem splitCmd_noSpace_all (a : Bytes) (h : ∀ b ∈ a, b ≠ 32) : splitCmd a = (a, []) := by
+  induction a with
+  | nil => simp [splitCmd]
+  | cons c t ih =>
+    have hc : c ≠ 32 := h c (by simp)
+    have ht : ∀ b ∈ t, b ≠ 32 := fun b hb => h b (by simp [hb])
+    simp [splitCmd, hc, ih ht]
+
 end Txdbus.AuthServer
